@@ -6,6 +6,7 @@ CONSTANTS
   PruneH = 2
   MaxSteps = 5
   MaxWrites = 1
+  Reorgs = TRUE
   MaxJump = 2
   EmitOn = FALSE
 VIEW view
